@@ -113,6 +113,15 @@ int cmdCases(int argc, char** argv) {
 							nif.SetShapePartitions(shape, pinfo, tp);
 							nif.UpdateSkinPartitions(shape);
 						}
+						// Oblivion geometry data may hold several UV sets: a second one, distinct per vertex
+						if (std::string(vers[vi]) == "OB")
+							if (auto gd = shape->GetGeomData()) {
+								gd->uvSets.resize(2);
+								gd->uvSets[1].resize(nv);
+								for (size_t v = 0; v < nv; v++) gd->uvSets[1][v] = Vector2(0.5f + float(v), 0.25f);
+								gd->SetUVs(true);
+								gd->dataFlags = uint16_t((gd->dataFlags & ~0x3F) | 2);
+							}
 						// locked normals: every odd vertex and the last one
 						{
 							auto ln = std::make_unique<NiIntegersExtraData>();
